@@ -118,6 +118,28 @@ def run_check(prop, tier, seed, out=sys.stdout):
                    'want_case': bi == 0}
             res, err = call_worker(job, shadow_dir, hs,
                                    run_timeout * max(1, len(idxs)) + 60)
+            # a worker killed by a signal (the C decoder crashed on damaged
+            # bytes): re-run the run it died in with isolated reads, then
+            # the rest of the block
+            guard = 0
+            while err and 'worker exit -' in err and guard < 8:
+                guard += 1
+                done = {r.get('idx') for r in res}
+                rest = [i for i in idxs if i not in done]
+                if not rest:
+                    break
+                r1, e1 = call_worker(dict(job, indices=rest[:1], isolate=True),
+                                     shadow_dir, hs, run_timeout + 60)
+                res.extend(r1)
+                if e1:
+                    err = 'block %d idx %d (isolated): %s' % (bi, rest[0], e1)
+                    break
+                err = None
+                if rest[1:]:
+                    r2, err = call_worker(dict(job, indices=rest[1:]),
+                                          shadow_dir, hs,
+                                          run_timeout * len(rest) + 60)
+                    res.extend(r2)
             with lock:
                 results.extend(res)
                 if err:
